@@ -233,11 +233,14 @@ def readErrorMap (fx : Bool) : P Unit := do
   let n ← readInt
   loopN n.toNat (do readInetAdressOnly fx; let _ ← readShort; pure ())
 
-/-- what is kept of a type description: tuples matter for Iter.Scan's destination count -/
+/-- the type tree a description is parsed to (TypeInfo): NativeType{typ} (custom classes and unknown
+ids included), CollectionType, TupleTypeInfo, UDTTypeInfo (field types) -/
 inductive TI
-  | other
-  | tuple (n : Nat)
-deriving DecidableEq, Repr
+  | simple (typ : Nat)
+  | list (e : TI)          -- TypeList and TypeSet
+  | map (k v : TI)
+  | tuple (es : List TI)
+  | udt (fs : List TI)
 
 /-- props/C05.fix-7.diff: `if int(n)*k > len(f.buf) { panic(error) }` before the allocation (every
 element description needs at least k bytes); absent from the unchanged code -/
@@ -258,34 +261,35 @@ def readTypeInfo (fx : Bool) : Nat → P TI
       let n ← readShort
       guardCount fx (2 * n)
       alloc (16 * n)
-      typeLoop fx f false n
-      pure (.tuple n)
+      let es ← typeLoop fx f false n
+      pure (.tuple es)
     else if typ == 0x30 then do
       let _ ← readString
       let _ ← readString
       let n ← readShort
       guardCount fx (4 * n)
       alloc (32 * n)
-      typeLoop fx f true n
-      pure .other
+      let fs ← typeLoop fx f true n
+      pure (.udt fs)
     else if typ == 0x21 then do
-      let _ ← readTypeInfo fx f
-      let _ ← readTypeInfo fx f
-      pure .other
+      let k ← readTypeInfo fx f
+      let v ← readTypeInfo fx f
+      pure (.map k v)
     else if typ == 0x20 || typ == 0x22 then do
-      let _ ← readTypeInfo fx f
-      pure .other
-    else pure .other
+      let e ← readTypeInfo fx f
+      pure (.list e)
+    else pure (.simple typ)
 /-- the element loops of tuple (`named = false`) and UDT (`named = true`) descriptions -/
-def typeLoop (fx : Bool) : Nat → Bool → Nat → P Unit
+def typeLoop (fx : Bool) : Nat → Bool → Nat → P (List TI)
   | 0, _, _ => crashAt .fuel
   | f+1, named, n =>
     match n with
-    | 0 => pure ()
+    | 0 => pure []
     | n+1 => do
       (if named then do let _ ← readString; pure () else pure ())
-      let _ ← readTypeInfo fx f
-      typeLoop fx f named n
+      let t ← readTypeInfo fx f
+      let ts ← typeLoop fx f named n
+      pure (t :: ts)
 end
 
 /-- entry point with the fuel the proofs show sufficient: |unread bytes| + 1 -/
